@@ -28,6 +28,7 @@ Definition stream_ErrStreamDoesNotExist : Z := ERR_INVALID_DATA.
 Definition stream_ErrStreamExists : Z := ERR_INVALID_DATA.
 Definition stream_ErrStreamNotCancellable : Z := ERR_INVALID_DATA.
 Definition sdkerrors_ErrUnauthorized : Z := ERR_UNAUTHORIZED.
+Definition sdkerrors_ErrInvalidAddress : Z := 7.
 Definition govtypes_ErrInvalidSigner : Z := 42.  (* x/gov ErrInvalidSigner; = ERR_GOV_AUTH of model/App.v *)
 
 (* conversion between the protobuf struct and the model's record *)
